@@ -24,7 +24,8 @@
 (*     @while, mixin body, function body, @content block) is a frame;      *)
 (*     loop variables and parameters are bound in the block's own frame;   *)
 (*   - mixin / function bodies see their definition site (lexical parent), *)
-(*     content blocks see the include site.                                *)
+(*     content blocks see the include site ("contentm": a content block    *)
+(*     whose wrapper mixin has locals of the same names - invisible).      *)
 (* Whether the iterations of @for/@each/@while share one frame is not fixed by *)
 (* the property: both choices are computed and the observable is undef     *)
 (* where they differ.                                                      *)
@@ -47,7 +48,7 @@ Unbound == -1          \* no binding
 Null    == 0           \* the Sass value null; numbers are > 0
 
 FlowKinds  == {"if", "each", "for", "while"}
-BlockKinds == {"rule", "media", "atrule", "lmixin", "mixin", "function", "content"}
+BlockKinds == {"rule", "media", "atrule", "lmixin", "mixin", "function", "content", "contentm"}
 Kinds      == FlowKinds \cup BlockKinds
 BindKinds  == {"each", "for", "mixin", "function", "content"}   \* kinds that may bind a variable
 GlobalDef  == {"mixin", "function"}       \* defined at top level: lexical parent = global frame
@@ -58,7 +59,7 @@ ForVals  == <<1, 2>>
 EachVals == <<3, 4>>
 WhileVals == <<0, 0>>
 ParamVal(kind) == CASE kind = "mixin" -> 5 [] kind = "function" -> 6 [] kind = "content" -> 7
-IsBoundVal(v) == v \in 1..7
+IsBoundVal(v) == v \in 1..8      \* 8: locals of the wrapper mixin of a "contentm" block, never visible to the block
 
 AllDevs == {"assign_always_local", "flow_no_frame"}
 
